@@ -1,4 +1,5 @@
 import MitmVerif.Model.C36_Gate
+import MitmVerif.Model.C36_Read
 import Driver.WireC36
 import Driver.Proto
 open MitmVerif Driver MitmVerif.C36
@@ -21,6 +22,19 @@ def c36Step (line : String) : String :=
   | ["load", m, d, h] =>
     match m.toNat?, d.toNat?, hexOr h with
     | some m, some d, some b => showRes (load m d b)
+    | _, _, _ => "bad-op"
+  | ["loadseg", m, d, h, cuts] =>
+    -- load through a buffered reader over the content cut into segments at the given offsets
+    match m.toNat?, d.toNat?, hexOr h with
+    | some m, some d, some b =>
+      let offs := if cuts = "-" then [] else (cuts.splitOn ",").map (fun x => x.toNat?.getD 0)
+      let rec cut (b : Bytes) (prev : Nat) : List Nat → List Bytes
+        | [] => [b]
+        | o :: t => b.take (o - prev) :: cut (b.drop (o - prev)) o t
+      let segs := cut b 0 offs
+      match loadVia readN m d (b.length + 2) segs with
+      | .ok (v, rest) => showRes (.ok (v, rest.flatten))
+      | .error e => showRes (.error e)
     | _, _, _ => "bad-op"
   | ["read", m, d, oc, h] =>
     match m.toNat?, d.toNat?, hexOr h with
